@@ -15,11 +15,11 @@ LEVEL = "fault_enumeration"
 RULE = ("fault space = truncation points of the writer: frame sizes 2*nc for nc in {2,5,97,277,385} x whole frames in {1,2,22,1000} x every "
         "trailing byte count 0..frame-1 (all of them for nc<=97 in quick, 40 stratified incl. frame/2 +-1 for 277/385; all in thorough) x "
         "metadata claiming fewer / equal / more samples / still-acquiring (online reader) x integer and fractional sampling rates x Reader "
-        "and OnlineReader, plus compressed streams shorter than announced, plus readers instantiated with open=False whose file grows / shrinks before open(). Non-trivial: trailing bytes > 0 or metadata claim != content; "
+        "and OnlineReader, plus compressed streams shorter than announced, plus readers instantiated with open=False whose file grows / shrinks before open(), plus long recordings (1e5..3e5 frames, bin and cbin) whose metadata is off by 1..3 frames. Non-trivial: trailing bytes > 0 or metadata claim != content; "
         "distinct = distinct (nc, frames, trailing, claim, fs, reader class)")
 ASSUMPTIONS = ["truncation = a prefix of the byte stream the writer would have produced", "at least one complete frame is present",
                "still-acquiring metadata (no fileTimeSecs / fileSizeBytes yet) is only given to OnlineReader, the class meant for it"]
-REQUIRED = {"constructions": 400, "prefix_values_checked": 400, "half_frame_or_more": 100, "beyond_end_reads": 400, "cbin_short": 2, "deferred_opens": 60}
+REQUIRED = {"constructions": 400, "prefix_values_checked": 400, "half_frame_or_more": 100, "beyond_end_reads": 400, "cbin_short": 2, "deferred_opens": 60, "long_off_by_few": 6}
 CASE_TIMEOUT = 400.0
 NCS = [2, 5, 97, 277, 385]
 FRAMES = [1, 2, 22, 1000]
@@ -49,6 +49,8 @@ def gen_cases(seed, tier):
         cases.append({"cls": "cbin-short", "seed": seed * 100 + i, "_w": 2})
     for i in range(12 if tier == "quick" else 120):
         cases.append({"cls": "deferred", "seed": seed * 100 + i, "_w": 1})
+    for i in range(8 if tier == "quick" else 60):
+        cases.append({"cls": "long-off-by-few", "seed": seed * 100 + i, "form": ["bin", "cbin"][i % 2], "_w": 3})
     return cases
 
 
@@ -169,6 +171,41 @@ def run_case(case):
             sr.close()
             nt += 1
         res.sig = f"deferred-{case['seed']}"
+    elif case["cls"] == "long-off-by-few":
+        # long recordings whose metadata is off by a handful of frames: the disagreement is tiny RELATIVE to the length (1e-5 and below)
+        kind = str(rng.choice(["3B2", "NP2.1"]))
+        n = int(rng.choice([1, 1, 3]))
+        ns_real = int(rng.integers(100_000, 320_000))
+        delta = int(rng.choice([-3, -2, -1, 1, 2, 3]))
+        fs = float(rng.choice([30000.0, 30000.390639481, 2500.0]))
+        rec = G.make(rng, kind=kind, sites=G.draw_sites(rng, kind, n, "dense"), ns=ns_real, fs=fs, claim_ns=ns_real + delta, content="random")
+        b = G.write(rec, d)
+        form = case["form"]
+        label = f"{form} with {ns_real} frames of {rec.nc} channels, metadata announces {ns_real + delta} (relative disagreement {abs(delta) / ns_real:.1e}) fs={fs}"
+        try:
+            if form == "cbin":
+                import mtscomp
+                mtscomp.compress(b, out=b.with_suffix(".cbin"), outmeta=b.with_suffix(".ch"), sample_rate=rec.fs, n_channels=rec.nc, dtype=np.int16,
+                                 chunk_duration=1.0, check_after_compress=False, n_threads=2)
+                b.unlink()
+                b = b.with_suffix(".cbin")
+            readers = ["Reader"] if form == "cbin" else ["Reader", "OnlineReader"]
+            for cls_name in readers:
+                R = spikeglx.Reader if cls_name == "Reader" else spikeglx.OnlineReader
+                try:
+                    sr = R(b, sort=False, ignore_warnings=bool(rng.integers(0, 2)))
+                    res.count("constructions")
+                except Exception as e:
+                    res.count("constructions")
+                    res.exception(f"long-off-by-few:{form}:open-exception", e, f"{cls_name} {label}")
+                    continue
+                judge(res, sr, rec.raw, rec.s2v, ns_real, f"{cls_name} {label}", f"long-off-by-few:{form}")
+                res.count("long_off_by_few")
+                sr.close()
+                nt += 1
+        except Exception as e:
+            res.exception(f"long-off-by-few:{form}:exception", e, label)
+        res.sig = f"long-{case['seed']}-{form}"
     else:
         # compressed stream shorter than the metadata announces
         kind = str(rng.choice(["3B2", "NP2.1"]))
